@@ -355,6 +355,48 @@ def c04(ctx: Ctx) -> None:
         if pth is not None:
             escw = pth + [e]
             break
+    # ... including failures the raise model does not draw as edges: a read of a local that may still be unbound
+    # (the loop variable in the handler when the batch function failed before its first result), and calls that are
+    # not known to be total before the protected region
+    from ..dataflow import maybe_unbound_loads
+    from ..model import TOTAL_CALLS
+    fan_try = None
+    for h, s_ in b3:
+        fan_try = parent(h.ast)
+    if escw is None:
+        for n in g.nodes:
+            if n.ast is None or n.kind in ('entry', 'exit', 'raise_exit') or n.meta.get('inlined'):
+                continue
+            ub = maybe_unbound_loads(g, n)
+            if ub and find_path(g, [g.entry], [n], edge_ok=_not_ise) is not None:
+                # harmless only if a sweep still follows on the exception... an UnboundLocalError here is not caught by
+                # anything that fans out
+                in_fan_body = fan_try is not None and any(t is fan_try and part == 'body' for t, part in n.trys)
+                if not in_fan_body:
+                    escw = (find_path(g, [g.entry], [n], edge_ok=_not_ise) or [])
+                    ctx.violation('C04-B5', f'{norm(n.ast)[:70]} reads {ub} which may be unbound', g.loc(n),
+                                  'UnboundLocalError outside the protected region (e.g. in the handler, before the fan-out, when the batch '
+                                  'function failed before yielding anything): the batch task dies, no caller of the batch is answered',
+                                  witness=render(g, escw), construct=construct_key(r.process.qualname, 'unbound read', sorted(ub)))
+                    escw = None
+                    break
+        for n in g.nodes:
+            if n.kind != 'call' or n.meta.get('inlined'):
+                continue
+            before_try = fan_try is not None and not any(t is fan_try for t, part in n.trys) and not n.trys
+            if not before_try:
+                continue
+            cn = call_name(g, n.ast) or ''
+            total = cn in TOTAL_CALLS or cn.startswith('logging.') or (isinstance(n.ast.func, ast.Attribute) and n.ast.func.attr in (
+                'debug', 'info', 'warning', 'error', 'exception', 'critical', 'log', 'items', 'keys', 'values', 'get', 'copy', 'append'))
+            if total or find_path(g, [g.entry], [n], edge_ok=_not_ise) is None:
+                continue
+            # reached before the protected region?
+            if any(find_path(g, [n], [x], edge_ok=_not_ise) is not None for x in g.nodes if fan_try is not None and x.kind == 'call'
+                   and any(t is fan_try and part == 'body' for t, part in x.trys)):
+                ctx.violation('C04-B5', f'{norm(n.ast)[:70]} runs before the protected region', g.loc(n),
+                              'a failure of this call (it is not known to be total, e.g. list.sort() comparing futures of duplicate keys) kills '
+                              'the batch task before any future is answered', construct=construct_key(r.process.qualname, 'unprotected call', n.ast))
     ctx.check('C04-B5', 'every path entry -> exit passes a sweep or leaves the dict empty; no Exception escapes', where,
               w is None and escw is None, 'pending -> swept on all normal and exc:Exception paths',
               'a path through the batch task skips both sweeps' if w is not None else 'an Exception escapes the batch task before the futures are answered',
@@ -1169,7 +1211,22 @@ def _registry(ctx: Ctx, p) -> None:
         (isinstance(n.meta.get('value'), ast.Subscript) and isinstance(n.meta['value'].value, ast.Name) and n.meta['value'].value.id == reg)
         or (isinstance(n.meta.get('stmt'), ast.Assign) and any(isinstance(t, ast.Subscript) and isinstance(t.value, ast.Name)
                                                                and t.value.id == reg for t in n.meta['stmt'].targets)))}
-    ok = any(isinstance(a.ast.value, ast.Call) and isinstance(a.ast.value.func, ast.Name) and a.ast.value.func.id in bvars for a in uses)
+    from ..dataflow import leaves as _leaves
+
+    def _is_registered(n, fe) -> bool:
+        """every value the callee expression can denote is a read of the registry or the batcher stored into it"""
+        if isinstance(fe, ast.Name) and fe.id in bvars:
+            return True
+        lfs = _leaves(g, n, fe)
+        def one(x) -> bool:
+            if isinstance(x, ast.Name) and x.id in bvars:
+                return True
+            if any(isinstance(y, ast.Name) and y.id == reg for y in ast.walk(x)) and isinstance(x, (ast.Subscript, ast.Call)):
+                return True       # batchers[loop] / batchers.get(loop)
+            return norm(x) in stored_leaves
+        stored_leaves = {norm(y) for s_ in stores if s_.meta.get('value') is not None for y in [s_.meta['value']] + _leaves(g, s_, s_.meta['value'])}
+        return bool(lfs) and all(one(x) for x in lfs)
+    ok = any(isinstance(a.ast.value, ast.Call) and _is_registered(a, a.ast.value.func) for a in uses)
     ctx.check('C15-R3', f'the call is delegated to the registered batcher {sorted(bvars)}', f'{FILE}:{wrapper.lineno}', ok,
               'uses this loop\'s batcher', 'the awaited batcher is not the one registered for this loop',
               construct=construct_key(wrapper.qualname, 'registry use'))
